@@ -7,6 +7,10 @@
 (* genuine packets must still be accepted from the post-state.              *)
 EXTENDS Srtp, Json, SequencesExt
 
+\* how the replayer embeds model values into real ones: "low" (ROC from 0, SRTCP index from 0), "highroc" (model ROC
+\* 0..MaxRoc -> real 2^32-1-MaxRoc .. 2^32-1), "rtcptop" (model SRTCP index RtcpTop -> real 2^31-1)
+CONSTANT Embed
+
 CtxRow(t, k) == <<k, IF t[k].on THEN 1 ELSE 0, t[k].roc, t[k].last, t[k].rtcp, IF t[k].idle THEN 1 ELSE 0>>
 B(b) == IF b THEN 1 ELSE 0
 
@@ -31,7 +35,7 @@ NextRow(t, s) ==
      ELSE <<s, -1, 0, 0>>
 
 EdgeRec ==
-  [ cfg  |-> [bits |-> SeqBits, wm |-> Watermark, rocmod |-> RocMod, table |-> B(WithTick), opendev |-> B("EvictLosesState" \in Deviations),
+  [ cfg  |-> [bits |-> SeqBits, wm |-> Watermark, rocmod |-> RocMod, table |-> B(WithTick), opendev |-> B("EvictLosesState" \in Deviations), embed |-> Embed, rtcptop |-> RtcpTop,
               start |-> SetToSeq({<<s, start[s]>> : s \in Ssrcs})],
     pre  |-> hist,
     act  |-> hist'[Len(hist')],
